@@ -1,4 +1,4 @@
-import Shisui.Gossip
+import Shisui.GossipRel
 import Shisui.RadiusCache
 /-! # C20 — Gossip goes to at most eight covered peers and never back to the source
 
@@ -16,6 +16,12 @@ theorem gossip_rule (c : Gs.Ctx) (result : List Nat) (h : Gs.Allowed c result) :
     result.length ≤ 8 ∧
     (∀ n ∈ result, n ∈ c.closest ∧ (∃ r, c.radius n = some r ∧ c.covers n r = true) ∧ c.src ≠ some n) ∧
     (∀ n ∈ (Gs.covered c).take 4, n ∈ result) := Gs.gossip_rule c result h
+
+/-- the Boolean relation the driver evaluates on every REAL gossip result implies the same clauses -/
+theorem checked_relation_rule (c : Gs.Ctx) (result : List Nat) (h : Gs.allowedB c result = true) :
+    result.length ≤ 8 ∧
+    (∀ n ∈ result, n ∈ c.closest ∧ (∃ r, c.radius n = some r ∧ c.covers n r = true) ∧ c.src ≠ some n) ∧
+    (∀ n ∈ (Gs.covered c).take 4, n ∈ result) := Gs.allowedB_rule c result h
 
 /-- "The radius used for a node is the one it most recently reported in a ping or pong, in any supported payload type." -/
 theorem radius_is_last_report (c : Option Nat) (rs : List Rc.Report) :
@@ -36,6 +42,7 @@ theorem unknown_never_target (rs : List Rc.Report) (h : ∀ r ∈ rs, r.member =
 example : Rc.run none [⟨true, true, true, 5⟩, ⟨true, false, true, 9⟩, ⟨true, true, true, 7⟩, ⟨false, true, true, 1⟩] = some 7 := by decide
 
 #print axioms gossip_rule
+#print axioms checked_relation_rule
 #print axioms radius_is_last_report
 #print axioms unknown_never_target
 end Props.C20
